@@ -115,6 +115,66 @@ fn width_sweep(ctx: &Ctx, rep: &mut Report) {
     }
 }
 
+/// k horizontal tabs in ONE call, k around every power of two up to 2^17 (thorough 2^20):
+/// the cursor is on the k-th stop, or in the last column when there are fewer - on a fresh
+/// terminal and with a hand-set stop list.
+fn ht_runs(ctx: &Ctx, rep: &mut Report) {
+    let mut ks: Vec<usize> = vec![0, 1, 2, 3, 9, 10, 11, 100];
+    for j in 4..=ctx.tier.pick(17u32, 20) {
+        let b = 1usize << j;
+        ks.extend([b - 1, b, b + 1, b + 3]);
+    }
+    let cases: Vec<(usize, usize, bool)> = ks.iter().flat_map(|&k| [20usize, 80, 300].into_iter().flat_map(move |w| [false, true].into_iter().map(move |custom| (k, w, custom)))).collect();
+    let bad: Vec<String> = cases
+        .par_iter()
+        .filter_map(|&(k, w, custom)| {
+            let r = crate::engine::guarded(|| {
+                let mut vt = build_vt(w, 2, Some(0));
+                let mut stops: Vec<usize> = default_stops(w);
+                if custom {
+                    let _ = vt.feed_str("\x1b[3g\x1b[4G\x1bH\x1b[12G\x1bH\r");
+                    stops = vec![3, 11];
+                }
+                let _ = vt.feed_str(&"\t".repeat(k));
+                let want = if k == 0 { 0 } else { stops.get(k - 1).copied().unwrap_or(w - 1).min(w - 1) };
+                let got = vt.cursor().col;
+                if got != want {
+                    return Some(format!("cursor in column {}, expected {}", got, want));
+                }
+                // and the next character goes where a terminal tabbed step by step puts it
+                let _ = vt.feed_str("x");
+                let mut s = build_vt(w, 2, Some(0));
+                if custom {
+                    let _ = s.feed_str("\x1b[3g\x1b[4G\x1bH\x1b[12G\x1bH\r");
+                }
+                for _ in 0..k.min(60) {
+                    let _ = s.feed_str("\t");
+                }
+                let _ = s.feed_str("x");
+                if vt.view() != s.view() || vt.cursor() != s.cursor() {
+                    return Some("the character printed after the run is not where step-by-step tabbing puts it".to_string());
+                }
+                None
+            });
+            match r {
+                Ok(None) => None,
+                Ok(Some(d)) => Some(format!("{} HTs in one call on {} columns ({} stops): {}", k, w, if custom { "hand-set" } else { "default" }, d)),
+                Err(p) => Some(format!("{} HTs on {} columns: panic: {}", k, w, p)),
+            }
+        })
+        .collect();
+    let n = cases.len() as u64;
+    rep.evaluations += n;
+    rep.traces_validated += n;
+    rep.transitions += n;
+    rep.parts.push(json!({"part":"ht-runs","counts":ks.len(),"max_count":ks.iter().max(),"cases":n,"violating":bad.len()}));
+    println!("part ht-runs: {} cases up to {} tabs in one call, {} violating", n, ks.iter().max().unwrap(), bad.len());
+    if let Some(d) = bad.first() {
+        emit_violation(ctx, rep, "C18", json!({"part":"ht-runs","oracle":"reference-terminal","observed":d}));
+        rep.violations += bad.len() as u64 - 1;
+    }
+}
+
 fn alpha(cfg: &Cfg) -> Vec<Op> {
     let cols = cfg.cols as u32;
     let mut v: Vec<Op> = vec![];
@@ -173,6 +233,7 @@ static SYS: LockStep = LockStep { property: "C18", probes: true, seed: None };
 pub fn run(ctx: &Ctx) -> Report {
     let mut rep = Report::new();
     width_sweep(ctx, &mut rep);
+    ht_runs(ctx, &mut rep);
     let p = parts!(ctx.tier, &SYS);
     run_part(ctx, &mut rep, &p);
     rep.rule = "(a) every pair of widths and every triple of small widths: build at the first width, resize along the chain, the tab stops (hook and HT scan) must be those of a fresh terminal of the final width; (b) lock-step BFS of (real Vt, reference terminal with a BTreeSet of stops) over CHA to boundary columns, HTS/CTC/TBC, HT/CHT/CBT with counts, text to the wrap-pending column, resizes to 7 widths; hidden tab stops compared after every transition".into();
@@ -181,6 +242,11 @@ pub fn run(ctx: &Ctx) -> Report {
 }
 
 pub fn replay(ctx: &Ctx, v: &Value) -> bool {
+    if v["part"] == "ht-runs" {
+        let mut rep = Report::new();
+        ht_runs(ctx, &mut rep);
+        return rep.violations > 0;
+    }
     if v["part"] == "width-chains" {
         let w: Vec<usize> = v["widths"].as_array().unwrap().iter().map(|x| x.as_u64().unwrap() as usize).collect();
         let r = check_chain(&w);
